@@ -687,5 +687,22 @@ class SSeq:
         self.fn = fn
         self.length = binop('+', L, 1)
 
+    def extend(self, other):
+        """list.extend with another (possibly symbolic-length) sequence: elements of `other` follow, in order."""
+        L, old = self.length, self.fn
+        if isinstance(other, (list, tuple)):
+            for x in other:
+                self.append(x)
+            return
+        of, m = other.fn, other.length
+
+        def fn(j):
+            a, b = old(j), of(binop('-', j, L))
+            if isinstance(a, (SObj, SFrame, SRow, STensor)) or isinstance(b, (SObj, SFrame, SRow, STensor)):
+                raise Unsupported('symbolic choice between two objects of a list')
+            return z_ite(cmpop('<', j, L), a, b)
+        self.fn = fn
+        self.length = binop('+', L, m)
+
     def __repr__(self):
         return f'SSeq[{self.length}]'
